@@ -38,6 +38,14 @@ namespace {
 
 using Pair = std::pair<int, int>;
 
+// A broken tree can make the traversal loop forever.  The watchdog covers LIBRARY calls only
+// (never the brute-force oracle or the comparison): SIGALRM ends the process, the orchestrator
+// attributes it to the current case, re-runs that case once alone, and resumes.
+struct Watch {
+  explicit Watch(unsigned s = 120) { alarm(s); }
+  ~Watch() { alarm(0); }
+};
+
 // ---- the property's test, written independently of the library ----------------
 struct B3 {
   double lo[3], hi[3];
@@ -161,13 +169,16 @@ static void Query(Fails& F, const Collider& c, const Vec<T>& queries, const std:
       rec.v.push_back({q, l});
     };
     auto recorder = MakeSimpleRecorder(f);
-    if (api == 0)
-      c.Collisions<self>(recorder, queries.cview(), false);  // VecView overload, sequential
-    else if (api == 1)
-      c.Collisions<self>(recorder, queries.cview());  // VecView overload, parallel allowed
-    else {
-      auto qf = [&queries](const int i) { return queries[i]; };  // functor overload (boolean3.cpp)
-      c.Collisions<self>(recorder, qf, (int)queries.size(), true);
+    {
+      Watch w;
+      if (api == 0)
+        c.Collisions<self>(recorder, queries.cview(), false);  // VecView overload, sequential
+      else if (api == 1)
+        c.Collisions<self>(recorder, queries.cview());  // VecView overload, parallel allowed
+      else {
+        auto qf = [&queries](const int i) { return queries[i]; };  // functor overload (boolean3.cpp)
+        c.Collisions<self>(recorder, qf, (int)queries.size(), true);
+      }
     }
     static const char* names[] = {"view/seq", "view/par", "functor/par"};
     Compare(F, "pairs", {{"phase", phase}, {"queries", what}, {"api", names[api]}}, rec.v, want);
@@ -270,7 +281,10 @@ static int RunBvh3(const json& cs, Fails& F) {
     Vec<int> parent(2 * n - 1, -1);
     Vec<std::pair<int, int>> ch(n - 1, std::make_pair(-1, -1));
     collider_internal::CreateRadixTree crt{parent, ch, morton.cview()};
-    for (int i = 0; i < n - 1; i++) crt(i);
+    {
+      Watch w;
+      for (int i = 0; i < n - 1; i++) crt(i);
+    }
     for (int i = 0; i < n - 1; i++)
       if (ch[i].first != cs["tree"][i][0].get<int>() || ch[i].second != cs["tree"][i][1].get<int>()) {
         F.add("drift.tree", {{"internal", i}, {"model", cs["tree"][i]}, {"real", {ch[i].first, ch[i].second}}});
@@ -278,7 +292,9 @@ static int RunBvh3(const json& cs, Fails& F) {
       }
   }
 
+  alarm(120);
   Collider c(lb.cview(), morton.cview());
+  alarm(0);
   const auto qb = Boxes(cs["qboxes"]);
   const auto qp = Points(cs["qpoints"]);
   const auto wantBox = Sets(cs["expBox"]), wantPt = Sets(cs["expPoint"]), wantSelf = Sets(cs["expSelf"]);
@@ -306,7 +322,10 @@ static int RunBvh3(const json& cs, Fails& F) {
         if (im.lo[d] != lT[l].lo[d] || im.hi[d] != lT[l].hi[d]) F.add("oracle", {{"what", "image box"}, {"leaf", l}});
     }
     Collider cT = c;
-    cT.Transform(m);
+    {
+      Watch w;
+      cT.Transform(m);
+    }
     const auto qbT = Boxes(cs["qboxesT"]);
     const auto qpT = Points(cs["qpointsT"]);
     const auto wB = Sets(cs["expBoxT"]), wP = Sets(cs["expPointT"]), wS = Sets(cs["expSelfT"]);
@@ -320,11 +339,17 @@ static int RunBvh3(const json& cs, Fails& F) {
   {
     const Leafs L2 = LeafsOf(cs["boxes2"]);
     const Vec<Box> lb2 = L2.boxes();
-    c.UpdateBoxes(lb2.cview());
+    {
+      Watch w;
+      c.UpdateBoxes(lb2.cview());
+    }
     const auto wB = Sets(cs["expBox2"]), wP = Sets(cs["expPoint2"]), wS = Sets(cs["expSelf2"]);
     SameSets(F, "box2", BruteBox(L2.b, qb, false), wB);
     CheckPhase(F, c, "update", L2.b, qb, qp, wB, wP, wS.empty() ? nullptr : &wS);
-    c.UpdateBoxes(lb.cview());
+    {
+      Watch w;
+      c.UpdateBoxes(lb.cview());
+    }
     CheckPhase(F, c, "update-back", L.b, qb, qp, wantBox, wantPt, self ? &wantSelf : nullptr);
   }
   return nontrivial;
@@ -356,15 +381,21 @@ static void RunRectsOn(const std::vector<R2>& rs, const std::vector<Pair>& exp, 
     verts.push_back(vec2(rs[i].hi[0], rs[i].hi[1]));
   }
   std::vector<Pair> pairs;
+  alarm(120);
   CollectIntersectionPairs(edges, verts, 0.0, boxes, BVH(), pairs);  // x-sorted sweep
+  alarm(0);
   ComparePairs(F, "sweep", pairs, exp);
+  alarm(120);
   BVH bvh = BVHBuildFromBoxes(boxes);
   pairs.clear();
   CollectIntersectionPairs(edges, verts, 0.0, boxes, bvh, pairs);  // BVH traversal
+  alarm(0);
   ComparePairs(F, "bvh", pairs, exp);
   // CollidePairs reports every ordered overlapping pair, the rectangle itself included
   std::vector<Pair> all, expAll;
+  alarm(120);
   CollidePairs(bvh, boxes, [&](int q, int l) { all.push_back({q, l}); });
+  alarm(0);
   if (n >= 2) {
     for (auto& p : exp) {
       expAll.push_back(p);
@@ -394,12 +425,14 @@ static void RunPointsOn(const std::vector<std::array<double, 2>>& ps, const std:
                         const std::vector<std::vector<int>>& want, Fails& F) {
   Vec<PolyVert> pts;
   for (size_t i = 0; i < ps.size(); i++) pts.push_back({vec2(ps[i][0], ps[i][1]), (int)i});
+  alarm(120);
   BuildTwoDTree(pts);
   std::vector<Pair> got;
   for (size_t q = 0; q < qs.size(); q++) {
     Rect r(vec2(qs[q].lo[0], qs[q].lo[1]), vec2(qs[q].hi[0], qs[q].hi[1]));
     QueryTwoDTree(pts, r, [&](const PolyVert& p) { got.push_back({(int)q, p.idx}); });
   }
+  alarm(0);
   Compare(F, "kdtree", {{"n", ps.size()}}, got, want);
 }
 static int RunPoints(const json& cs, Fails& F) {
@@ -467,7 +500,9 @@ static int RunRand3(const json& cs, Fails& F) {
   Vec<uint32_t> morton(code);
   Vec<Box> lb;
   for (auto& b : leaves) lb.push_back(BoxOf(b));
+  alarm(120);
   Collider c(lb.cview(), morton.cview());
+  alarm(0);
   std::vector<B3> qb(nq);
   for (auto& q : qb) q = RandBox(r, lat + 2, maxsize, -1);
   std::vector<std::array<double, 3>> qp(nq);
@@ -486,7 +521,10 @@ static int RunRand3(const json& cs, Fails& F) {
       T.t[d] = r.below(7) - 3;
     }
     Collider cT = c;
-    cT.Transform(Matrix(T));
+    {
+      Watch w;
+      cT.Transform(Matrix(T));
+    }
     std::vector<B3> lT(n), qbT = qb;
     for (int i = 0; i < n; i++) lT[i] = Image(leaves[i], T);
     for (int i = 0; i < nq / 2; i++) qbT[i] = Image(qb[i], T);
@@ -501,9 +539,15 @@ static int RunRand3(const json& cs, Fails& F) {
     for (auto& b : l2) b = RandBox(r, lat, maxsize, -1);
     Vec<Box> lb2;
     for (auto& b : l2) lb2.push_back(BoxOf(b));
-    c.UpdateBoxes(lb2.cview());
+    {
+      Watch w;
+      c.UpdateBoxes(lb2.cview());
+    }
     CheckPhase(F, c, "update", l2, qb, qp, BruteBox(l2, qb, false), BrutePt(l2, qp), nullptr);
-    c.UpdateBoxes(lb.cview());
+    {
+      Watch w;
+      c.UpdateBoxes(lb.cview());
+    }
     CheckPhase(F, c, "update-back", leaves, qb, qp, BruteBox(leaves, qb, false), BrutePt(leaves, qp), nullptr);
   }
   return (int)distinct.size() < n ? 1 : 0;  // non-trivial: duplicated codes present
@@ -560,9 +604,6 @@ int CollideMain(int argc, char** argv) {
     Fails F;
     const std::string kind = cases[i]["kind"];
     int nt = 0;
-    // a broken tree can make the traversal loop forever: SIGALRM ends the process, the
-    // orchestrator attributes it to this case (a hang on a valid leaf set) and resumes
-    alarm(kind.rfind("rand", 0) == 0 ? 300 : 20);
     if (kind == "bvh3")
       nt = RunBvh3(cases[i], F);
     else if (kind == "rects")
@@ -577,7 +618,6 @@ int CollideMain(int argc, char** argv) {
       nt = RunRandPts(cases[i], F);
     else
       F.add("oracle", {{"what", "unknown case kind " + kind}});
-    alarm(0);
     if (!F.list.empty()) nfail++;
     nontrivial += nt > 0;
     out.line({{"i", i}, {"fail", F.list}, {"nontrivial", nt}});
